@@ -25,7 +25,7 @@ rm -f /tmp/mutcheck.build.$$.log /tmp/mutcheck.test.$$.log
 cd "$V"
 for p in "$@"; do
   out=$(bin/check "$p" 2>&1); rc=$?
-  echo "$p exit=$rc $(echo "$out" | grep -E 'VIOLATION|KNOWN' | head -2 | tr '\n' ' ')"
+  echo "$p exit=$rc $(echo "$out" | grep -E 'VIOLATION' | head -1) $(echo "$out" | grep -E '^KNOWN-FINDING' | cut -c1-100 | tr '\n' ' ')"
   echo "    $(echo "$out" | grep -E '^\[' | tail -1)"
   if [ $rc -ne 0 ]; then
     rp=$(echo "$out" | sed -n 's/.*replay=\([^ ]*\).*/\1/p' | head -1)
